@@ -10,7 +10,7 @@ def scenarios(tier, rng):
     n = 60 if tier == "quick" else 400
     for structured in (False, True):
         for fs in scen.small_trees(structured, rng, n):
-            for lockkind, uc in (("absent", None), ("valid100", None), ("valid100", False), ("maxm1", None), ("valid_doc100", None)):
+            for lockkind, uc in (("absent", None), ("valid100", None), ("valid100", False), ("maxm1", None), ("valid_doc100", None), ("valid0", None)):
                 if lockkind == "maxm1" and rng.random() < 0.7:
                     continue
                 if lockkind != "absent" and rng.random() < 0.5 and tier == "quick":
@@ -66,7 +66,7 @@ def judge(rep, s, o, before_es, after_es):
     consistent = True
     if lockst.startswith("V"):
         L = int(lockst[1:])
-        consistent = L >= 1 and all(r < L for r in old)
+        consistent = all(r < L for r in old)      # "ahead of every ID in the tree"; a lock that records 0 included
     if not consistent:
         return None                      # outside the property's hypothesis
     if len(set(new_ids)) != len(new_ids):
